@@ -1,6 +1,5 @@
 import OZ.DrvUtil
-import OZ.Model.WebAuthn
-import OZ.Model.Ed25519Verifier
+import OZ.Model.VerifiersMon
 /-
 Driver for C18. Ops (bytes are lower-case hex, "-" = empty):
   wa c=<lib|ex> pl=<payload> kl=<key(-data) length> xdr=<0|1> cd=<client data> parse=<ok|fail>
@@ -15,23 +14,27 @@ Driver for C18. Ops (bytes are lower-case hex, "-" = empty):
   encblk a=<byte> b=<byte>      source = the 256 groups (a, b, 0) … (a, b, 255), exact buffer
 Observations: `ok true` | `ok false` | `err`;  `ok <hex of dst>` | `panic`;  `ok <ascii>`.
 
-Monitor (model-independent; uses only the RFC 4648 specification `rfc4648`): accept ⇔ the
-property's conjunction; encoder output = RFC 4648 §5 unpadded.
+`op` runs the model (`OZ.Verifiers.modelLine` on the parsed op line). `mon` never does: it only
+parses (`parseOp`, `readObs`) and calls the monitor core `OZ.Verifiers.Mon.checkCore`
+(model-independent; uses only the RFC 4648 specification `rfc4648`): accept ⇔ the property's
+conjunction; encoder output = RFC 4648 §5 unpadded. The core is proved sound in OZ/Props/C18Mon.lean.
+
+String-level parts that stay here and are NOT covered by the soundness theorem: `parseOp` (with
+`ofHex`) and the `site=c18.parse` report for a `wa` / `ed` / `enc` / `encblk` line that does not parse
+(the model side prints `bad-op` for it, which the correspondence diff reports). A line of any other
+kind is ignored by the monitor.
 -/
 namespace OZ.Drv.C18
-open OZ.Drv OZ.B64
+open OZ.Drv OZ.B64 OZ.Verifiers OZ.Verifiers.Mon
 
 def hexArg (ws : List String) (k : String) : Option Bytes := (kv? ws k).bind ofHex
 
-def showRes {ε} : Except ε Bool → String
-  | .ok true => "ok true"
-  | .ok false => "ok false"
-  | .error _ => "err"
+def which : Option String → Which
+  | some "lib" => .lib
+  | some "ex" => .ex
+  | _ => .other
 
-def blkSrc (a b : Nat) : Bytes :=
-  (List.range 256).flatMap (fun c => [UInt8.ofNat a, UInt8.ofNat b, UInt8.ofNat c])
-
-def evalOp (ws : List String) : Option String :=
+def parseOp (ws : List String) : Option Op :=
   match ws with
   | "wa" :: rest => do
     let c ← kv? rest "c"
@@ -44,108 +47,42 @@ def evalOp (ws : List String) : Option String :=
     let ch ← hexArg rest "ch"
     let ad ← hexArg rest "ad"
     let sv ← kvNat? rest "sv"
-    let sd : OZ.WebAuthn.SigData := { signature := [], authenticatorData := ad, clientData := cd }
-    let O : OZ.WebAuthn.Oracles :=
-      { parse := fun _ => if parse = "ok" then some { challenge := ch, typeField := ty } else none
-        sha256 := fun _ => []
-        p256Verify := fun _ _ _ => sv == 1
-        fromXdr := fun _ => if xdr = 1 then some sd else none }
-    let key : Bytes := List.replicate kl 0
-    if c = "lib" then some (showRes (OZ.WebAuthn.verify O pl key sd))
-    else if c = "ex" then some (showRes (OZ.WebAuthn.exampleVerify O pl key []))
-    else none
+    pure (.wa { c := which (some c), pl, kl, xdr, cd, parseOk := decide (parse = "ok"), ty, ch, ad, sv })
   | "ed" :: rest => do
-    let c ← kv? rest "c"
-    let pl ← hexArg rest "pl"
     let sv ← kvNat? rest "sv"
-    if c = "lib" then some (showRes (OZ.Ed25519Verifier.verify (fun _ _ _ => sv == 1) pl [] []))
-    else if c = "ex" then some (showRes (OZ.Ed25519Verifier.exampleVerify (fun _ _ _ => sv == 1) pl [] []))
-    else none
+    pure (.ed { c := which (kv? rest "c"), pl := hexArg rest "pl", sv })
   | "enc" :: rest => do
     let src ← hexArg rest "src"
     let n ← kvNat? rest "dst"
-    match encodeInto (List.replicate n 0xAA) src with
-    | none => some "panic"
-    | some out => some ("ok " ++ toHex out)
+    pure (.enc src n)
   | "encblk" :: rest => do
     let a ← kvNat? rest "a"
     let b ← kvNat? rest "b"
-    some ("ok " ++ toAscii (encode (blkSrc a b)))
+    pure (.encblk a b)
   | _ => none
 
-/-- first conjunct of the property that an assertion violates (`none`: it is genuine and
-well-formed, so it must be accepted) -/
-def waDefect (ws : List String) : Option (Option String) := do
-  let c ← kv? ws "c"
-  let pl ← hexArg ws "pl"
-  let kl ← kvNat? ws "kl"
-  let xdr ← kvNat? ws "xdr"
-  let cd ← hexArg ws "cd"
-  let parse ← kv? ws "parse"
-  let ty ← hexArg ws "ty"
-  let ch ← hexArg ws "ch"
-  let ad ← hexArg ws "ad"
-  let sv ← kvNat? ws "sv"
-  let f := (ad.getD 32 0).toNat
-  pure (
-    if c = "ex" ∧ xdr ≠ 1 then some "sig_data_xdr"
-    else if c = "ex" ∧ kl < 65 then some "key_data_len"
-    else if cd.length > 1024 then some "client_data_len"
-    else if parse ≠ "ok" then some "parse"
-    else if ty ≠ ofAscii "webauthn.get" then some "type"
-    else if pl.length ≠ 32 then some "payload_len"
-    else if ch ≠ rfc4648 pl then some "challenge"
-    else if ad.length < 37 then some "auth_data_len"
-    else if f % 2 ≠ 1 then some "up"
-    else if f / 4 % 2 ≠ 1 then some "uv"
-    else if f / 8 % 2 = 0 ∧ f / 16 % 2 = 1 then some "backup_state"
-    else if sv ≠ 1 then some "signature"
-    else none)
+/-- model side: the model's answer to an op line (`bad-op` when it is not an op line) -/
+def evalOp (ws : List String) : String :=
+  match parseOp ws with
+  | some op => modelLine op
+  | none => "bad-op"
+
+/-! ### monitor -/
+
+def isOpKind (ws : List String) : Bool :=
+  match ws with
+  | k :: _ => k = "wa" || k = "ed" || k = "enc" || k = "encblk"
+  | [] => false
 
 def monitor (opl obs : String) : Option String :=
-  let ws := words opl
-  match ws with
-  | "wa" :: rest =>
-    match waDefect rest with
-    | none => some s!"site=c18.parse unparsable op {opl}"
-    | some d =>
-      if obs = "ok false" then some "site=webauthn.returns_false the verifier returned false"
-      else match d with
-        | some why => if obs = "ok true" then some s!"site=webauthn.accept.{why} accepted although the {why} condition fails" else none
-        | none => if obs = "ok true" then none else some "site=webauthn.reject.genuine a genuine, well-formed assertion was rejected"
-  | "ed" :: rest =>
-    match kvNat? rest "sv" with
-    | none => some s!"site=c18.parse unparsable op {opl}"
-    | some sv =>
-      if obs = "ok false" then some "site=ed25519.returns_false the verifier returned false"
-      else if sv = 1 ∧ obs ≠ "ok true" then some "site=ed25519.reject.genuine a valid signature was rejected"
-      else if sv ≠ 1 ∧ obs = "ok true" then some "site=ed25519.accept.invalid accepted although the signature does not verify"
-      else none
-  | "enc" :: rest =>
-    match hexArg rest "src", kvNat? rest "dst" with
-    | some src, some n =>
-      let want := rfc4648 src
-      let expect := if n < want.length then "panic"
-                    else "ok " ++ toHex (want ++ List.replicate (n - want.length) 0xAA)
-      if obs = expect then none
-      else some s!"site=base64url.rfc4648 encoder output differs from RFC 4648 §5: want {expect} got {obs}"
-    | _, _ => some s!"site=c18.parse unparsable op {opl}"
-  | "encblk" :: rest =>
-    match kvNat? rest "a", kvNat? rest "b" with
-    | some a, some b =>
-      let expect := "ok " ++ toAscii (rfc4648 (blkSrc a b))
-      if obs = expect then none
-      else some s!"site=base64url.rfc4648 encoder output differs from RFC 4648 §5 on a 3-byte group ({a},{b},*)"
-    | _, _ => some s!"site=c18.parse unparsable op {opl}"
-  | _ => none
+  match parseOp (words opl) with
+  | some op => checkCore op (readObs obs)
+  | none => if isOpKind (words opl) then some s!"site=c18.parse unparsable op {opl}" else none
 
 def machine : Machine where
   σ := Unit
   init := fun _ => ()
-  op := fun _ line =>
-    match evalOp (words line) with
-    | some r => ((), r)
-    | none => ((), "bad-op")
+  op := fun _ line => ((), evalOp (words line))
   μ := Unit
   minit := fun _ => ()
   mon := fun _ opl obs => ((), monitor opl obs)
